@@ -30,10 +30,10 @@ P = {
     "design": [dict(TLC, module="I_Syncer", cfg="MC_I_Syncer_quick.cfg", thorough_cfg="MC_I_Syncer.cfg",
                     timeout=600, thorough_timeout=3000)],
     "gen": dict(TLC, module="Gen_Syncer", cfg="Gen_cover.cfg", thorough_cfg="Gen_cover_thorough.cfg",
-                max=400, thorough_max=8000, timeout=600, thorough_timeout=1800),
+                max=400, thorough_max=6000, timeout=600, thorough_timeout=1800),
     # the cover generator's model has one node-port IP: same here, so that its crash points reach every write
     "driver": {"cmd": "syncer", "env": {"VERIF_NPIPS": "1"}},
-    "n_random": (120, 2500),
+    "n_random": (120, 2000),
     "trace": {"module": "T_Syncer", "cfg": "T_Syncer.cfg", "heap": "4g", "timeout": 900},
     "chunk": 30000,
     "signature": signature,
@@ -68,7 +68,7 @@ def run(ctx):
         P2 = dict(P)
         P2["design"] = []
         P2["gen"] = dict(TLC, module="Gen_Syncer", cfg="Gen_sim.cfg", workers=1, timeout=600, thorough_timeout=1800,
-                         simulate={"num": 30, "depth": 800}, thorough_simulate={"num": 800, "depth": 800})
+                         simulate={"num": 30, "depth": 800}, thorough_simulate={"num": 600, "depth": 800})
         P2["driver"] = {"cmd": "syncer"}
         P2["n_random"] = (0, 0)
         pipeline.standard_check(ctx, P2)
